@@ -220,8 +220,21 @@ def numeric_cases(ctx, n_cases, seeds=None, focus=None):
             Hfun = lambda t: [H, float(np.sin(om * t)) * H1]
             Hd_of_t = lambda t: Hd + np.sin(om * t) * Hd1
         else:
-            Hfun = H
-            Hd_of_t = lambda t: Hd
+            # the generator as one MPO, an MPO with a prefactor, or a sum of MPOs with prefactors
+            form = rng.choice(['single', 'single', 'scaled', 'sum'])
+            if form == 'scaled':
+                cH = rng.choice([0.5, 2.0, -1.5])
+                Hfun, Hd = cH * H, cH * Hd
+            elif form == 'sum':
+                H2_, _ = dgen.hamiltonian(rng, fam, ops, N, cplx=cplx)
+                ca, cb = rng.choice([1.0, 0.5, 2.0]), rng.choice([-0.5, 0.7, 1.0])
+                Hfun, Hd = [ca * H, cb * H2_], ca * Hd + cb * dgen.dmat(H2_, ops)
+            else:
+                Hfun = H
+            scaleH = max(1.0, np.linalg.norm(Hd, 2))
+            ctx.count('tdvp:generator:' + form)
+            desc['generator'] = form
+            Hd_of_t = lambda t, Hd=Hd: Hd
         t_init = rng.choice([0.0, 0.13])
 
         def run(dt_):
